@@ -111,7 +111,7 @@ def generate(rng, tier):
         elif m < 7:
             cases.append(sc.gen_ring(rng, sufficient=False))
         elif m < 8:
-            cases.append([undelayed_ring, connect_ring, sc.gen_relay2_ring, sc.gen_pull_ring, sc.gen_ring_staggered][(i // 10) % 5](rng))
+            cases.append([undelayed_ring, connect_ring, sc.gen_relay2_ring, sc.gen_pull_ring, sc.gen_ring_staggered, sc.gen_ring_mixed][(i // 10) % 6](rng))
         else:
             cases.append(sc.gen_dag(rng, cyclic=True, late_start=False))
     # rings resolved by a CALENDAR delay: monitor only (outside the integer-time Coq model)
